@@ -55,6 +55,15 @@ def main():
         np.random.seed(int(rng.integers(0, 2 ** 31)))
         np.random.random(int(rng.integers(1, 100)))
         random.seed(int(rng.integers(0, 2 ** 31)))
+    for j in range(ctx.get("near_dups", 0)):
+        # a fleet holds near-duplicates (a meter re-submitted with a few corrected readings): fitting them first must not matter
+        b2 = bdf.copy(deep=True)
+        col = b2.columns.get_loc("observed")
+        ok = np.flatnonzero(b2["observed"].notna().to_numpy())
+        pick = rng.choice(ok, size=min(len(ok), 1 + j % 3), replace=False)
+        mag = 10.0 ** rng.uniform(-5, -1.7)                      # a corrected reading: from a rounding fix to a 2% revision
+        b2.iloc[pick, col] = b2.iloc[pick, col] * (1 + mag)
+        digest_fit(spec, fam, b2, rdf)
     out = []
     batch = ctx.get("batch")
     if batch:
